@@ -214,6 +214,7 @@ func mergeContracts(dst, src *FuncContract) {
 	dst.Crash = append(dst.Crash, src.Crash...)
 	dst.Reach = append(dst.Reach, src.Reach...)
 	dst.Sends = append(dst.Sends, src.Sends...)
+	dst.Guarded = append(dst.Guarded, src.Guarded...)
 	dst.Effects = append(dst.Effects, src.Effects...)
 	dst.NPTags = append(dst.NPTags, src.NPTags...)
 	for k, v := range src.Inv {
